@@ -84,6 +84,11 @@ func (p Precompile) CreateValidator(
 		return nil, err
 	}
 
+	// NOTE: the message can move coins of accounts the EVM stateDB has already loaded: the delegator and,
+	// through the automatic withdrawal of staking rewards, the account its rewards are paid to. Bring the
+	// cached balances in line with the bank keeper, so that committing the EVM state does not overwrite them.
+	stateDB.(*statedb.StateDB).SyncBalances()
+
 	return method.Outputs.Pack(true)
 }
 
@@ -162,11 +167,10 @@ func (p Precompile) Delegate(
 		return nil, err
 	}
 
-	// NOTE: This ensures that the changes in the bank keeper are correctly mirrored to the EVM stateDB.
-	// This prevents the stateDB from overwriting the changed balance in the bank keeper when committing the EVM state.
-	if isCallerDelegator {
-		stateDB.(*statedb.StateDB).SubBalance(contract.CallerAddress, msg.Amount.Amount.BigInt())
-	}
+	// NOTE: the message can move coins of accounts the EVM stateDB has already loaded: the delegator and,
+	// through the automatic withdrawal of staking rewards, the account its rewards are paid to. Bring the
+	// cached balances in line with the bank keeper, so that committing the EVM state does not overwrite them.
+	stateDB.(*statedb.StateDB).SyncBalances()
 
 	return method.Outputs.Pack(true)
 }
@@ -248,6 +252,11 @@ func (p Precompile) Undelegate(
 		return nil, err
 	}
 
+	// NOTE: the message can move coins of accounts the EVM stateDB has already loaded: the delegator and,
+	// through the automatic withdrawal of staking rewards, the account its rewards are paid to. Bring the
+	// cached balances in line with the bank keeper, so that committing the EVM state does not overwrite them.
+	stateDB.(*statedb.StateDB).SyncBalances()
+
 	return method.Outputs.Pack(res.CompletionTime.UTC().Unix())
 }
 
@@ -328,6 +337,11 @@ func (p Precompile) Redelegate(
 		return nil, err
 	}
 
+	// NOTE: the message can move coins of accounts the EVM stateDB has already loaded: the delegator and,
+	// through the automatic withdrawal of staking rewards, the account its rewards are paid to. Bring the
+	// cached balances in line with the bank keeper, so that committing the EVM state does not overwrite them.
+	stateDB.(*statedb.StateDB).SyncBalances()
+
 	return method.Outputs.Pack(res.CompletionTime.UTC().Unix())
 }
 
@@ -406,6 +420,11 @@ func (p Precompile) CancelUnbondingDelegation(
 	if err = p.EmitCancelUnbondingDelegationEvent(ctx, stateDB, msg, delegatorHexAddr); err != nil {
 		return nil, err
 	}
+
+	// NOTE: the message can move coins of accounts the EVM stateDB has already loaded: the delegator and,
+	// through the automatic withdrawal of staking rewards, the account its rewards are paid to. Bring the
+	// cached balances in line with the bank keeper, so that committing the EVM state does not overwrite them.
+	stateDB.(*statedb.StateDB).SyncBalances()
 
 	return method.Outputs.Pack(true)
 }
